@@ -165,6 +165,37 @@ pub fn bar_after(_args: &[String]) -> String {
             }
         }
     }
+    // a custom key whose text contains a line break is split into rows like any other text
+    for (msg, pfx) in [("", ""), ("m", ""), ("two\nlines", "")] {
+        let term = InMemoryTerm::new(H, W as u16);
+        let pb = ProgressBar::with_draw_target(Some(10), ProgressDrawTarget::term_like(Box::new(term.clone())));
+        pb.set_style(ProgressStyle::with_template("{prefix}{msg}|{k}").unwrap()
+            .with_key("k", |s: &indicatif::ProgressState, w: &mut dyn std::fmt::Write| { let _ = write!(w, "top {}\nbottom", s.pos()); }));
+        pb.set_message(msg);
+        pb.set_prefix(pfx);
+        let mut hist = vec![format!("template {{prefix}}{{msg}}|{{k}} with a custom key k writing \"top <pos>\\nbottom\"; message {:?}", msg)];
+        let mut logs: Vec<String> = vec![];
+        for step in 0..4 {
+            match step { 0 => pb.tick(), 1 => pb.inc(1), 2 => { pb.println("log"); logs.push("log".into()); } _ => pb.inc(1) }
+            hist.push(["tick", "inc(1)", "println(log)", "inc(1)"][step].to_string());
+            tried += 1;
+            let pos = match step { 0 => 0, 1 | 2 => 1, _ => 2 };
+            let mut rows = logs.clone();
+            rows.extend(format!("{}{}|top {}\nbottom", pfx, msg, pos).split('\n').map(String::from));
+            let want = rows.join("\n");
+            let got = term.contents();
+            if got != want {
+                return report("C01 the rendering of a custom key with a line break is counted row by row: no residue after a redraw", &hist, &want, &got, "bar_after");
+            }
+        }
+        pb.finish_and_clear();
+        tried += 1;
+        let got = term.contents();
+        if got != logs.join("\n") {
+            hist.push("finish_and_clear".into());
+            return report("C01 a cleared bar leaves no residue (custom key with a line break)", &hist, &logs.join("\n"), &got, "bar_after");
+        }
+    }
     // (ii) life after finishing, (iii) where ordinary output lands
     for msg in ["", "short", LONG, "two\nlines"] {
         for fin in 0..5 {
